@@ -192,6 +192,8 @@ fn convert_hgignore_glob(glob: &str, file_path: &Path) -> Result<Regex, Error> {
     {
         // hgignore(5): a glob is not rooted, it matches at any directory level; a matching
         // directory hides everything below it; every character but the wildcards is literal
+        // Mercurial normalises its patterns: `build/` is `build`
+        let glob = if glob.len() > 1 { glob.trim_end_matches('/') } else { glob };
         let chars: Vec<char> = glob.chars().collect();
         let mut pattern = String::new();
         let mut i = 0;
